@@ -24,12 +24,6 @@ def KvStore.immDict (s : KvStore) : Dict :=
   | some (d, _) => d
   | none => Dict.empty
 
-/-- `needFlush()` -/
-def KvStore.needFlush (s : KvStore) : Bool :=
-  match s.immutable with
-  | some (_, false) => true
-  | _ => false
-
 /-- the step function of one caller -/
 abbrev KFun := KvStore → Nat → KThread → KvStore × Nat × KThread
 
